@@ -1,12 +1,17 @@
 #!/bin/bash
-# try_seed.sh <patch.diff> <Cxx> [<Cyy> ...] : apply to /repo, run the quick checks, always revert
+# try_seed.sh <patch.diff> <Cxx> [<Cyy> ...] : apply the change to a SCRATCH worktree of /repo (never to
+# /repo itself: other checks may be importing it), run the quick checks against it via AIU_REPO, clean up.
 set -u
-P=$1; shift
-cd /repo && git apply "$P" || { echo "patch does not apply"; exit 2; }
+P=$(readlink -f "$1"); shift
+W=/tmp/seedtry_$$
+git -C /repo worktree add -q --detach $W || exit 2
+( cd $W && git apply "$P" ) || { echo "patch does not apply"; git -C /repo worktree remove --force $W; exit 2; }
 cd /verif
 BK=$(mktemp -d); cp -a evidence/. $BK/    # evidence of a run against a seeded change must not replace the committed one
 for c in "$@"; do
-  /venv/bin/python harness/check.py $c --tier quick 2>&1 | grep -E "VIOLATION|KNOWN-FINDING|^\[C|INFRA|Traceback" 
+  AIU_REPO=$W /venv/bin/python harness/check.py $c --tier quick 2>&1 | grep -E "VIOLATION|KNOWN-FINDING|^\[C|INFRA|Traceback"
 done
-git -C /repo checkout -- . ; git -C /repo status --short | head -3
 cp -a $BK/. evidence/; rm -rf $BK
+git -C /repo worktree remove --force $W
+# the generated Lean data must describe /repo again
+/venv/bin/python harness/translate.py >/dev/null 2>&1
